@@ -290,11 +290,15 @@ def main():
     base += F.f_rule_chains(ops, depth=2)
     base += F.f_mem((2,), deltas=[0, 1, 32])[:: (2 if tier == "quick" else 1)]
     base += F.f_exh(2 if tier == "quick" else 3)
+    base += F.f_rule_singles(ops, contexts=("both", "bothstore"))[:: (6 if tier == "quick" else 1)]
+    base += F.f_rule_pairs(sorted(set(pairs) | {(b, a) for a, b in pairs}), consts=[0, 1], contexts=("both",))[:: (12 if tier == "quick" else 2)]
+    base = F.f_two_segments() + base           # first: every option set takes a stride of the list
     if tier == "thorough":
         both = sorted(set(pairs) | {(b, a) for a, b in pairs})
         base += F.f_rule_pairs(both, consts=[0, 1, F.MASK], contexts=("stack",))
         base += F.f_mem((3,), deltas=[0, 16], ops=("MSTORE", "MLOAD", "MSTORE8"))
     base = list(dict.fromkeys(base))
+    ntwo = len(F.f_two_segments())
     mem_pairs = F.f_mem_mutant_pairs(deltas=(0, 1, 32), length=2)
     mem_pairs += F.f_mem_move_pairs(deltas=(0, 8, 40), length=3, n_stores=(1, 2))
     if tier == "thorough":
@@ -308,7 +312,7 @@ def main():
              gasol.optset("storage", "gas", True, True, "greedy"), gasol.optset("partition", "size", True, False, "greedy")]
     for k, o in enumerate(osets):
         g = 1 if k == 0 else (4 if tier == "quick" else 2)
-        jobs = [("mutate", t) for i, t in enumerate(base) if i % g == 0]
+        jobs = [("mutate", t) for i, t in enumerate(base) if i % g == 0 or i < ntwo]
         jobs += [("pair", a, b, op) for i, (a, b, op) in enumerate(mem_pairs) if i % g == 0]
         jobs += [("reflexive", t) for i, t in enumerate(base) if i % g == 0]
         if k in (0, 3):
